@@ -390,6 +390,53 @@ def runStale : St → List Op → List Out
   | _, [] => []
   | st, op :: ops => let (st', out) := stepStale st op; out :: runStale st' ops
 
+/-! ### the F2 random generators (`numqi/random/_spf2.py`): deterministic post-processing of the raw draws -/
+
+/-- columns of a bit matrix given by rows (`cli_mat` as numpy stores it ↦ the packed columns of `Tab`) -/
+def colsOfRows (m : Nat) (rows : List Nat) : List Nat :=
+  (List.range m).map fun j => SpF2.ofFn m fun a => (rows.getD a 0).testBit j
+
+/-- `rand_Clifford_group(n)` (`_spf2.py:61-76`): `cli_r` = the `2n` raw bits of `rand_F2`, `cli_mat = rand_SpF2(n)` -/
+def randCliffordGroup (n : Nat) (rawBits : Nat) (rawTuple : List (Nat × Nat)) : Tab :=
+  ⟨n, rawBits % 4 ^ n, colsOfRows (2 * n) (SpF2.randSpF2 rawTuple)⟩
+
+/-- `rand_pauli(n, is_hermitian)` (`_spf2.py:79-101`) after the raw draw `F2 = rand_F2(2n+2)`:
+`tmp0 = x·z % 2`; `F2[1] = tmp0` (Hermitian), `1 - tmp0` (anti-Hermitian), unchanged for `None` -/
+def randPauliPost {n : Nat} (isHermitian : Option Bool) (raw : Pauli n) : Pauli n :=
+  match isHermitian with
+  | none => raw
+  | some true => { raw with s1 := Bits.dotN raw.x raw.z % 2 == 1 }
+  | some false => { raw with s1 := !(Bits.dotN raw.x raw.z % 2 == 1) }
+
+/-! ### `get_pauli_subset_equivalent` / `get_pauli_subset_stabilizer` (`numqi/gate/_pauli.py:402-445`) -/
+
+def natOfBitList (l : List Bool) : Nat := l.foldr (fun b acc => 2 * acc + b.toNat) 0
+
+/-- `pauli_index_to_F2(idx, n, with_sign=False)` as a packed bit array (through C08's `Pauli.ofIndex`) -/
+def maskOfIndex (n idx : Nat) : Nat := natOfBitList ((Pauli.ofIndex n idx).toF2List.drop 2)
+
+/-- `pauli_F2_to_index(bits, with_sign=False)` of a packed bit array (through C08's `Pauli.toIndex`) -/
+def indexOfMask (n m : Nat) : Nat :=
+  (Pauli.ofF2List n (false :: false :: (List.range (2 * n)).map fun j => m.testBit j)).toIndex
+
+/-- `np.sort(pauli_F2_to_index((first_element_GF4 @ S) % 2))`: the image of the index set under the matrix `S` (rows) -/
+def subsetImage (n : Nat) (S : List Nat) (subset : List Nat) : List Nat :=
+  (subset.map fun idx => indexOfMask n (SpF2.vecMul (maskOfIndex n idx) S (2 * n))).mergeSort (fun a b => decide (a ≤ b))
+
+/-- the images of the (sorted) subset under `from_int_tuple(t)` for all tuples of the `itertools.product` loop -/
+def orbitImages (n : Nat) (subset : List Nat) : List (List Nat) :=
+  let first := subset.mergeSort (fun a b => decide (a ≤ b))
+  (SpF2.allTuples n).map fun t => subsetImage n (SpF2.fromIntTuple t) first
+
+/-- `get_pauli_subset_equivalent(subset, n)`: the set `{first_element} ∪ images`, as a duplicate-free list -/
+def subsetEquivalent (n : Nat) (subset : List Nat) : List (List Nat) :=
+  (subset.mergeSort (fun a b => decide (a ≤ b)) :: orbitImages n subset).eraseDups
+
+/-- `get_pauli_subset_stabilizer(subset, n)`: the tuples (in loop order) whose matrix maps the subset to itself -/
+def subsetStabilizer (n : Nat) (subset : List Nat) : List (List (Nat × Nat)) :=
+  let first := subset.mergeSort (fun a b => decide (a ≤ b))
+  (SpF2.allTuples n).filter fun t => subsetImage n (SpF2.fromIntTuple t) first == first
+
 /-! ### finite enumerations and dense operators used by the `decide` theorems -/
 
 def allPaulis (k : Nat) : List PauliB :=
